@@ -88,7 +88,7 @@ def _list_plot_item_labels(cp):
   return outlist  
 
 # '[Table-Form:NAME]' may also be spelled '[Table-Form :NAME]'
-_table_form_item_re = re.compile(r"^(Table-Form\s*:[^:]*):(.*)$", re.DOTALL)
+_table_form_item_re = re.compile(r"^(\s*Table-Form\s*:[^:]*):(.*)$", re.DOTALL)
 
 def _split_item_key(key):
   """Split SECTION_NAME:KEY. The names of [Table-Form:NAME] sections contain a colon themselves."""
